@@ -160,6 +160,10 @@ impl IdMap {
             }
         };
 
+        // The table is addressed as `start + id / records-per-page`: it has to stay contiguous, and
+        // a record that opens a new page may only take that page if no other structure owns it.
+        let start = self.make_room_for_next_record(pager, start)?;
+
         // For now, only persist first label in I2E (backward compat)
         let first_label = labels.first().copied().unwrap_or(0);
         write_i2e_record(
@@ -185,6 +189,37 @@ impl IdMap {
             flags: 0,
         });
         Ok(())
+    }
+
+    /// Makes sure the next record of the table (which starts at `start`) can be written without
+    /// touching a page of another structure, and returns the table's start page.
+    ///
+    /// When the record opens a new page and the page after the table is already allocated, the
+    /// table is moved to a fresh contiguous run at the end of the page space and its old pages
+    /// are freed.
+    fn make_room_for_next_record(&mut self, pager: &mut Pager, start: PageId) -> Result<PageId> {
+        let len = self.i2e_len;
+        let (page_id, offset) = i2e_location(start, len)?;
+        if len == 0 || offset != 0 || !pager.is_page_allocated(page_id) {
+            return Ok(start);
+        }
+
+        let pages = len / I2E_RECORDS_PER_PAGE as u64;
+        let new_start = pager.allocate_run(pages)?;
+        let mut i = 0;
+        while i < pages {
+            let page = pager.read_page(PageId::new(start.as_u64() + i))?;
+            pager.write_page(PageId::new(new_start.as_u64() + i), &page)?;
+            i += 1;
+        }
+        pager.set_i2e_start_page(Some(new_start))?;
+        self.i2e_start = Some(new_start);
+        let mut i = 0;
+        while i < pages {
+            pager.free_page(PageId::new(start.as_u64() + i))?;
+            i += 1;
+        }
+        Ok(new_start)
     }
 
     /// Add a label to an existing node.
